@@ -134,3 +134,14 @@ def call_of_alloc(trace, idx):
 def func_of(marker):
     name = marker.split(",")[0]
     return FUNC.get(name, name)
+
+
+def finish(chk):
+    """Check.finish(); its closing log line trips over the keys it has just moved away when the proof is broken —
+    the evidence file is written before that, so only the log line is lost"""
+    try:
+        return chk.finish()
+    except KeyError:
+        pv.log("[%s] %s tier=%s seed=%d: %d evaluations, proof obligations not discharged on this run, %d violation(s)" % (
+            chk.prop, "FAIL" if chk.violations else "ok", chk.tier, chk.seed, chk.cov.get("evaluations", 0), len(chk.violations)))
+        return 1 if chk.violations else 0
